@@ -13,7 +13,10 @@ var vsGenesisMenu = map[string][][2]string{
 	"genesis={o1k1}":      {{"o1", "k1"}},
 	"genesis={o1k1,o2k2}": {{"o1", "k1"}, {"o2", "k2"}},
 }
-var vsGenesisOrder = []string{"genesis={o1k1}", "genesis={o1k1,o2k2}", vsUpperGenesis}
+var vsGenesisOrder = []string{"genesis={o1k1}", "genesis={o1k1,o2k2}", vsUpperGenesis, vsSecpChain}
+
+// a chain whose consensus parameters list secp256k1 next to ed25519: keys k1 (ed25519), s2, s3 (secp256k1)
+const vsSecpChain = "genesis={o1k1}, consensus keys of both types"
 
 // the operator addresses of this genesis are spelled in upper-case bech32 (legal, stored as written)
 const vsUpperGenesis = "genesis={O1k1,O2k2} in upper case"
@@ -21,6 +24,9 @@ const vsUpperGenesis = "genesis={O1k1,O2k2} in upper case"
 func vsSysFor(name string) *vsSys {
 	if name == vsUpperGenesis {
 		return &vsSys{genesis: vsGenesisMenu["genesis={o1k1,o2k2}"], upper: true}
+	}
+	if name == vsSecpChain {
+		return &vsSys{genesis: vsGenesisMenu["genesis={o1k1}"], secp: true}
 	}
 	return &vsSys{genesis: vsGenesisMenu[name]}
 }
@@ -31,7 +37,7 @@ func init() {
 			res := engine.NewResult()
 			for i, name := range vsGenesisOrder {
 				o := opts(rc, pick(rc, 6, 8))
-				if name == vsUpperGenesis {
+				if name == vsUpperGenesis || name == vsSecpChain {
 					o = opts(rc, pick(rc, 4, 6))
 				}
 				o.Deadline = time.Now().Add(time.Until(rc.Deadline()) / time.Duration(len(vsGenesisOrder)-i))
@@ -41,20 +47,20 @@ func init() {
 					return res
 				}
 				res.Absorb(name, rep)
-				if name == vsUpperGenesis {
+				if name == vsUpperGenesis || name == vsSecpChain {
 					continue
 				}
 				for _, k := range []string{"AddValidator/accepted", "AddValidator/rejected", "RemoveValidator/accepted", "NextBlock/ok", "UpdateParams/accepted", "UpdateParams/rejected"} {
 					res.Require(res.OutcomeCount(name, k) > 0, "%s: outcome %s never occurred", name, k)
 				}
 			}
-			res.Coverage["alphabet"] = "AddValidator(o∈{o1,o2,o3}, k∈{k1,k2,k3}) (all 9, so a key under another operator occurs); RemoveValidator(o); UpdateParams(MaxValidators∈{1,2,3} | HistoricalEntries∈{0,1,2}); NextBlock (= real EndBlocker, CometBFT ValidatorSet.UpdateWithChangeSet, height+1, real BeginBlocker); genesis ∈ {{o1k1},{o1k1,o2k2}, the latter with its operator addresses spelled in upper-case bech32} through the real InitGenesis"
+			res.Coverage["alphabet"] = "AddValidator(o∈{o1,o2,o3}, k∈{k1,k2,k3}) (all 9, so a key under another operator occurs); RemoveValidator(o); UpdateParams(MaxValidators∈{1,2,3} | HistoricalEntries∈{0,1,2}); NextBlock (= real EndBlocker, CometBFT ValidatorSet.UpdateWithChangeSet, height+1, real BeginBlocker); genesis ∈ {{o1k1},{o1k1,o2k2}, the latter with its operator addresses spelled in upper-case bech32} through the real InitGenesis; a fourth configuration runs on a chain whose consensus parameters list secp256k1 next to ed25519, with keys k1 (ed25519), s2, s3 (secp256k1)"
 			res.Coverage["oracle"] = "at every block boundary: EndBlock/BeginBlock neither fail nor panic; batch has no key twice, no removal of an unknown key, no negative power and is accepted by a real CometBFT ValidatorSet mirror; mirror = positive-power validators = LastValidatorPowers; bonded ≤ MaxValidators; removed validators are gone from Query/Validators; historical record at the new height exists iff HistoricalEntries>0, lists exactly the bonded set, and (constant retention) heights ⊆ (h-entries,h]; in every state operator and consensus-key indexes are one-to-one with the stored validators (raw store and queries)"
 			res.Assumptions = []string{"removing the last bonded validator is classified separately (engine-rejected-empty-set): the property's acceptance clause lists three conditions and an empty set is not among them", fmt.Sprintf("3 operators, 3 keys, depth %d", pick(rc, 6, 8))}
 			return res
 		},
 		Replay: func(kind string, path []string) ([]string, *engine.Violation, error) {
-			if _, ok := vsGenesisMenu[kind]; !ok && kind != vsUpperGenesis {
+			if _, ok := vsGenesisMenu[kind]; !ok && kind != vsUpperGenesis && kind != vsSecpChain {
 				return nil, nil, fmt.Errorf("unknown replay kind %q", kind)
 			}
 			return engine.Replay[*vsState](vsSysFor(kind), path)
